@@ -30,3 +30,13 @@ Fixpoint lives (f : option N) (umasks : list N) : bool :=
   | [] => true
   | u :: r => match life_log f u with Some f' => lives f' r | None => false end
   end.
+
+(* ---- the lock file from one life to the next, for a daemon that is not root ----
+   open (path, access) of an existing file by a process whose euid owns it: the owner permission bits decide
+   (0400 to read, 0200 to write); root is never refused.  The lock file a previous life created has the mode
+   lock.c asked for (gen/GenStart.lock_create_mode, the umask is 0 around that open) and the euid of that life. *)
+Definition access_needs (access : N) : N :=
+  match access with 0 => 256 | 1 => 128 | _ => 384 end.           (* O_RDONLY r--, O_WRONLY -w-, O_RDWR rw- *)
+Definition owner_may_open (is_root : bool) (mode access : N) : bool :=
+  is_root || (N.land mode (access_needs access) =? access_needs access).
+Definition lock_reopen_ok (is_root : bool) : bool := owner_may_open is_root lock_create_mode lock_open_access.
